@@ -65,23 +65,23 @@ macro_rules! auto_zeroize {
     };
 }
 
-//@ harness name=aes128_arm_zeroize prop=C16 tier=quick bits=5640 stub=1 variants=aes:armv8+zeroize est=115 need=6 desc="aarch64 build: drop of an arbitrary-state autodetect Aes128 zeroes every byte of the live union arm -- armv8::Aes128 (zeroize_flat_type over both [uint8x16_t; 11] key arrays) or the fixsliced software arm -- whichever detection selected (CPU answer symbolic, detection run for real)"
+//@ harness name=aes128_arm_zeroize prop=C16 tier=quick bits=5640 stub=1 variants=aes:armv8+zeroize est=85 need=6 desc="aarch64 build: drop of an arbitrary-state autodetect Aes128 zeroes every byte of the live union arm -- armv8::Aes128 (zeroize_flat_type over both [uint8x16_t; 11] key arrays) or the fixsliced software arm -- whichever detection selected (CPU answer symbolic, detection run for real)"
 auto_zeroize!(aes128_arm_zeroize, crate::autodetect::Aes128, crate::armv8::Aes128);
-//@ harness name=aes128enc_arm_zeroize prop=C16 tier=quick bits=5640 stub=1 variants=aes:armv8+zeroize est=90 need=5 desc="aarch64 build: drop of an arbitrary-state autodetect Aes128Enc zeroes the live arm (CPU answer symbolic)"
+//@ harness name=aes128enc_arm_zeroize prop=C16 tier=quick bits=5640 stub=1 variants=aes:armv8+zeroize est=65 need=5 desc="aarch64 build: drop of an arbitrary-state autodetect Aes128Enc zeroes the live arm (CPU answer symbolic)"
 auto_zeroize!(aes128enc_arm_zeroize, crate::autodetect::Aes128Enc, crate::armv8::Aes128Enc);
-//@ harness name=aes128dec_arm_zeroize prop=C16 tier=quick bits=5640 stub=1 variants=aes:armv8+zeroize est=120 need=5 desc="aarch64 build: drop of an arbitrary-state autodetect Aes128Dec zeroes the live arm (CPU answer symbolic)"
+//@ harness name=aes128dec_arm_zeroize prop=C16 tier=quick bits=5640 stub=1 variants=aes:armv8+zeroize est=75 need=5 desc="aarch64 build: drop of an arbitrary-state autodetect Aes128Dec zeroes the live arm (CPU answer symbolic)"
 auto_zeroize!(aes128dec_arm_zeroize, crate::autodetect::Aes128Dec, crate::armv8::Aes128Dec);
-//@ harness name=aes192_arm_zeroize prop=C16 tier=quick bits=6664 stub=1 variants=aes:armv8+zeroize est=130 need=7 desc="aarch64 build: drop of an arbitrary-state autodetect Aes192 zeroes the live arm (CPU answer symbolic)"
+//@ harness name=aes192_arm_zeroize prop=C16 tier=quick bits=6664 stub=1 variants=aes:armv8+zeroize est=90 need=7 desc="aarch64 build: drop of an arbitrary-state autodetect Aes192 zeroes the live arm (CPU answer symbolic)"
 auto_zeroize!(aes192_arm_zeroize, crate::autodetect::Aes192, crate::armv8::Aes192);
-//@ harness name=aes192enc_arm_zeroize prop=C16 tier=quick bits=6664 stub=1 variants=aes:armv8+zeroize est=105 need=6 desc="aarch64 build: drop of an arbitrary-state autodetect Aes192Enc zeroes the live arm"
+//@ harness name=aes192enc_arm_zeroize prop=C16 tier=quick bits=6664 stub=1 variants=aes:armv8+zeroize est=90 need=6 desc="aarch64 build: drop of an arbitrary-state autodetect Aes192Enc zeroes the live arm"
 auto_zeroize!(aes192enc_arm_zeroize, crate::autodetect::Aes192Enc, crate::armv8::Aes192Enc);
-//@ harness name=aes192dec_arm_zeroize prop=C16 tier=quick bits=6664 stub=1 variants=aes:armv8+zeroize est=100 need=6 desc="aarch64 build: drop of an arbitrary-state autodetect Aes192Dec zeroes the live arm"
+//@ harness name=aes192dec_arm_zeroize prop=C16 tier=quick bits=6664 stub=1 variants=aes:armv8+zeroize est=85 need=6 desc="aarch64 build: drop of an arbitrary-state autodetect Aes192Dec zeroes the live arm"
 auto_zeroize!(aes192dec_arm_zeroize, crate::autodetect::Aes192Dec, crate::armv8::Aes192Dec);
-//@ harness name=aes256_arm_zeroize prop=C16 tier=quick bits=7688 stub=1 variants=aes:armv8+zeroize est=180 need=9 desc="aarch64 build: drop of an arbitrary-state autodetect Aes256 zeroes the live arm (CPU answer symbolic)"
+//@ harness name=aes256_arm_zeroize prop=C16 tier=quick bits=7688 stub=1 variants=aes:armv8+zeroize est=270 need=9 desc="aarch64 build: drop of an arbitrary-state autodetect Aes256 zeroes the live arm (CPU answer symbolic)"
 auto_zeroize!(aes256_arm_zeroize, crate::autodetect::Aes256, crate::armv8::Aes256);
-//@ harness name=aes256enc_arm_zeroize prop=C16 tier=quick bits=7688 stub=1 variants=aes:armv8+zeroize est=185 need=6 desc="aarch64 build: drop of an arbitrary-state autodetect Aes256Enc zeroes the live arm"
+//@ harness name=aes256enc_arm_zeroize prop=C16 tier=quick bits=7688 stub=1 variants=aes:armv8+zeroize est=240 need=6 desc="aarch64 build: drop of an arbitrary-state autodetect Aes256Enc zeroes the live arm"
 auto_zeroize!(aes256enc_arm_zeroize, crate::autodetect::Aes256Enc, crate::armv8::Aes256Enc);
-//@ harness name=aes256dec_arm_zeroize prop=C16 tier=quick bits=7688 stub=1 variants=aes:armv8+zeroize est=135 need=6 desc="aarch64 build: drop of an arbitrary-state autodetect Aes256Dec zeroes the live arm"
+//@ harness name=aes256dec_arm_zeroize prop=C16 tier=quick bits=7688 stub=1 variants=aes:armv8+zeroize est=110 need=6 desc="aarch64 build: drop of an arbitrary-state autodetect Aes256Dec zeroes the live arm"
 auto_zeroize!(aes256dec_arm_zeroize, crate::autodetect::Aes256Dec, crate::armv8::Aes256Dec);
 
 // The armv8 types themselves (what the intrinsics arm of the union holds): every byte zero after drop.
@@ -107,9 +107,9 @@ macro_rules! plain_zeroize {
         }
     };
 }
-//@ harness name=armv8_aes128_zeroize prop=C16 tier=quick bits=2816 variants=aes:armv8+zeroize est=90 need=4 desc="drop of an arbitrary-state armv8::Aes128 (encrypt and decrypt [uint8x16_t; 11] key arrays) leaves every byte zero"
+//@ harness name=armv8_aes128_zeroize prop=C16 tier=quick bits=2816 variants=aes:armv8+zeroize est=45 need=4 desc="drop of an arbitrary-state armv8::Aes128 (encrypt and decrypt [uint8x16_t; 11] key arrays) leaves every byte zero"
 plain_zeroize!(armv8_aes128_zeroize, crate::armv8::Aes128);
-//@ harness name=armv8_aes192enc_zeroize prop=C16 tier=quick bits=1664 variants=aes:armv8+zeroize est=50 desc="drop of an arbitrary-state armv8::Aes192Enc leaves every byte zero"
+//@ harness name=armv8_aes192enc_zeroize prop=C16 tier=quick bits=1664 variants=aes:armv8+zeroize est=30 desc="drop of an arbitrary-state armv8::Aes192Enc leaves every byte zero"
 plain_zeroize!(armv8_aes192enc_zeroize, crate::armv8::Aes192Enc);
-//@ harness name=armv8_aes256dec_zeroize prop=C16 tier=quick bits=1920 variants=aes:armv8+zeroize est=40 desc="drop of an arbitrary-state armv8::Aes256Dec leaves every byte zero"
+//@ harness name=armv8_aes256dec_zeroize prop=C16 tier=quick bits=1920 variants=aes:armv8+zeroize est=35 desc="drop of an arbitrary-state armv8::Aes256Dec leaves every byte zero"
 plain_zeroize!(armv8_aes256dec_zeroize, crate::armv8::Aes256Dec);
